@@ -191,6 +191,34 @@ def run(chk):
         chk.ok("C19.size", enc[0], "write(): the re-encoding writer is used exactly when `encoding or te_encoding` (the cases size reports None)")
     else:
         chk.violation("C19.size", write, "if encoding or te_encoding: w = MultipartPayloadWriter(writer)", "", "parts are re-encoded under a different condition than the one size uses")
+    # one decision per part: the encodings recorded when the part was appended - the moment its Content-Length header was stamped or withheld -
+    # are the ones size and write() act on; re-deriving them later (from headers the caller can still change) lets the two disagree
+    ap = w.methods["append_payload"]
+    apps_ = [c for c, _b in K.exprs(ap, "self._parts.append($T)")]
+    stamp = [s_ for s_, _b in K.stmts(ap, "$P.headers[CONTENT_LENGTH] = $V")]
+    rec = apps_[0].args[0] if apps_ and isinstance(apps_[0].args[0], ast.Tuple) and len(apps_[0].args[0].elts) == 3 else None
+    if rec is None or not stamp:
+        chk.violation("C19.size", ap, "self._parts.append((payload, encoding, te_encoding))", "", "append_payload() no longer records the part's encodings next to the part / no longer stamps Content-Length")
+    else:
+        en, te = (norm.raw(e) for e in rec.elts[1:])
+        lits = {l.text for c in PC.pc(stamp[0], raw=True) for l in c}
+        if {en, te} <= lits:
+            chk.ok("C19.size", stamp[0], f"append_payload(): the part's Content-Length is stamped under not({en} or {te}), the very values stored in _parts")
+        else:
+            chk.violation("C19.size", stamp[0], K.short(stamp[0]), f"guarded by the recorded `{en}` / `{te}`", "the part Content-Length is stamped under another encoding decision than the one recorded for writing")
+        for fn_, what in ((size, "size"), (write, "write()")):
+            loops = [l for l in ast.walk(fn_.node) if isinstance(l, (ast.For, ast.AsyncFor)) and norm.raw(l.iter) == "self._parts"]
+            tgt = loops[0].target if loops else None
+            names = [e.id for e in tgt.elts if isinstance(e, ast.Name)] if isinstance(tgt, ast.Tuple) else []
+            rebound = [st for l in loops for st in ast.walk(l) if isinstance(st, (ast.Assign, ast.AnnAssign, ast.AugAssign)) for t_ in ast.walk(st) if isinstance(t_, ast.Name) and isinstance(t_.ctx, ast.Store) and t_.id in names[1:]]
+            dec = [i for l in loops for i in ast.walk(l) if isinstance(i, ast.If)]
+            uses = {n_.id for i in dec for n_ in ast.walk(i.test) if isinstance(n_, ast.Name)}
+            if len(names) == 3 and not rebound and set(names[1:]) <= uses:
+                chk.ok("C19.size", loops[0], f"{what}: the per-part encodings are the ones recorded by append_payload() (loop target over self._parts, never re-bound)")
+            else:
+                at = rebound[0] if rebound else (loops[0] if loops else fn_)
+                chk.violation("C19.size", at, K.short(at), "for part, encoding, te_encoding in self._parts",
+                              f"{what} does not act on the encodings recorded when the part was appended: append_payload() stamped the part's Content-Length for the un-encoded bytes (or withheld it) under the recorded decision, so a part that gets a Content-Encoding / Content-Transfer-Encoding header after append() is written re-encoded under a Content-Length that describes the raw bytes")
     # ---- eof (T16) -----------------------------------------------------------------------------------------------
     n_loops = 0
     for rel, cname in ((MP, "BodyPartReader"), (MP, "MultipartReader")):
@@ -416,6 +444,18 @@ def hunt_rules(chk, repo):
         else:
             chk.violation("C19.qp", c, K.short(c), "istext=False", "b2a_qp in text mode treats line ends specially per call: a chunk edge between CR and LF turns every later CRLF into LF on the wire, so the part is not read back byte for byte and the result depends on the segmentation")
     chk.expect_count("C19.qp", len(qp), 1, "quoted-printable encodings")
+    # ---- C19.shortread: a fixed token is never matched against a read that may come back short ----------------------------------------------
+    if not K._short_read_selfcheck():
+        chk.analysis_error("C19.shortread: the short-read detector no longer recognises its own positive example")
+    nsr = 0
+    for cl_ in (mr, bp):
+        hits = K.short_read_compares(cl_.node)
+        for cmp_, srcx in hits:
+            chk.violation("C19.shortread", cmp_, K.short(cmp_), "readline() / readexactly(n) / readuntil(sep)",
+                          f"`{srcx}` returns what is buffered (possibly fewer bytes) and is compared with a fixed token of two or more bytes: whether a valid body is accepted depends on how the transport segmented it (a CRLF split across two TCP segments is rejected as malformed)")
+        nsr += 1
+        if not hits:
+            chk.ok("C19.shortread", cl_.node, f"{cl_.name}: no fixed multi-byte token is matched against read(n)/readany() (line and delimiter reads use readline/readuntil/readexactly)")
     # ---- C19.textsize: a text-mode file's byte size is its payload size only under the same codec (shared with C04) --------------------------
     textsize(chk, repo, "C19.size")
 
